@@ -152,8 +152,7 @@ Qed.
 (* what _validate_integrity answers, by cases on the header fields *)
 Lemma validate_cases c m w :
   match validate_integrity c m w with
-  | VExc x => (get T8 (mtags m) = None /\ x = XTagNotFound)
-              \/ (exists v, get T34 (mtags m) = Some v /\ py_int v = None /\ x = XValue)
+  | VExc x => get T8 (mtags m) = None /\ x = XTagNotFound
   | VTrue => get T49 (mtags m) = None \/ get T56 (mtags m) = None
   | VStr code =>
       code <> [] /\
@@ -161,6 +160,7 @@ Lemma validate_cases c m w :
        \/ (exists s t, get T49 (mtags m) = Some s /\ get T56 (mtags m) = Some t
                        /\ (~ (c_sender c = t /\ c_target c = s)
                            \/ get T34 (mtags m) = None
+                           \/ (exists v, get T34 (mtags m) = Some v /\ py_int v = None)
                            \/ exists n, get_int T34 m = inl n /\ n < nin w
                                         /\ mkind m <> KSeqReset /\ st w <> ST_AWAITING)))
   | VOk => exists s t n, get T49 (mtags m) = Some s /\ get T56 (mtags m) = Some t
@@ -169,7 +169,7 @@ Lemma validate_cases c m w :
   end.
 Proof.
   unfold validate_integrity, get_int.
-  destruct (get T8 (mtags m)) as [b|]; [|left; auto].
+  destruct (get T8 (mtags m)) as [b|]; [|auto].
   destruct (str_eqb b (c_begin c)) eqn:Eb; cbn [negb].
   2:{ split; [discriminate|]. left. exists b. split; auto. now apply str_eqb_neq. }
   destruct (get T49 (mtags m)) as [s|]; [|left; reflexivity].
@@ -180,9 +180,10 @@ Proof.
   apply andb_true_iff in Ec. destruct Ec as [E1 E2]. apply str_eqb_eq in E1, E2.
   destruct (get T34 (mtags m)) as [v|].
   2:{ split; [discriminate|]. right. exists s, t. repeat split; auto. }
-  destruct (py_int v) as [n|] eqn:Ep; [|right; exists v; auto].
+  destruct (py_int v) as [n|] eqn:Ep.
+  2:{ split; [discriminate|]. right. exists s, t. repeat split; auto. right. right. left. exists v. auto. }
   destruct ((n <? nin w) && negb match mkind m with KSeqReset => true | _ => false end && negb (st w =? ST_AWAITING)) eqn:El.
-  - split; [discriminate|]. right. exists s, t. repeat split; auto. right. right. exists n.
+  - split; [discriminate|]. right. exists s, t. repeat split; auto. right. right. right. exists n.
     apply andb_true_iff in El. destruct El as [El E3]. apply andb_true_iff in El. destruct El as [E4 E5].
     repeat split; auto; try lia. destruct (mkind m); cbn in E5; congruence.
   - exists s, t, n. repeat split; auto.
@@ -307,11 +308,28 @@ Proof.
   unfold gap_check. allev_tac; auto.
 Qed.
 
-(* gap_check on a dead connection returns at once *)
-Lemma gap_check_dead c m w : dead w -> gap_check c m w = mkR (inl None) w [].
+Lemma logout_counted_discs c m w :
+  discs (re (logout_counted c m w)) = []
+  \/ (discs (re (logout_counted c m w)) = [tt] /\ ~ dead w /\ rv (logout_counted c m w) = inl tt).
 Proof.
-  intros H. unfold dead in H. unfold gap_check. rewrite bind_unfold. cbn [getw rv rw re].
-  destruct (st w <=? ST_DISC_BROKEN) eqn:E; [reflexivity|lia].
+  unfold logout_counted. rewrite bind_unfold. destruct (get_int T34 m) as [n|x]; cbn [lift ret raise rv rw re app]; [|left; reflexivity].
+  rewrite bind_unfold. cbn [getw rv rw re app]. rewrite bind_unfold.
+  set (X := (if n =? nin w then set_next_num_in m;;; persist_in m else ret tt) w).
+  assert (HX : discs (re X) = [] /\ st (rw X) = st w).
+  { subst X. destruct (n =? nin w); [|split; reflexivity]. split.
+    - apply discs_nil.
+      assert (H : allev not_disc (set_next_num_in m;;; persist_in m)); [|apply H].
+      allev_step; [apply set_next_num_in_allev|apply persist_in_allev].
+    - assert (H : pres st (set_next_num_in m;;; persist_in m)); [|apply H].
+      pres_step; [apply set_next_num_in_pres; ins_solve|apply persist_in_pres; ins_solve]. }
+  destruct HX as [HX1 HX2]. destruct (rv X); cbn [rv rw re]; [|left; exact HX1].
+  rewrite discs_app, HX1. cbn [app].
+  unfold process_logout. rewrite bind_unfold. cbn [getw rv rw re app]. rewrite bind_unfold. cbn [emit rv rw re app discs].
+  set (ds := if wasact (rw X) then ST_DISC_WCONN else ST_DISC_BROKEN).
+  destruct (disconnect_discs c ds None (rw X)) as [H|[H [Ha [_ Hr]]]].
+  - subst ds. destruct (wasact (rw X)); stlia.
+  - left. exact H.
+  - right. split; [exact H|]. split; [unfold dead in *; rewrite <- HX2; exact Ha|exact Hr].
 Qed.
 
 (* part1: at most one OnDisconnect; when there is one the connection is dead and dispatch is not reached *)
@@ -332,23 +350,21 @@ Proof.
   3:{ (* Logout *)
     pose proof (pre_handlers_logout_dead c m w w Ek) as Hd.
     assert (Hp : discs (re (pre_handlers c m w w)) = [] \/
-                 (discs (re (pre_handlers c m w w)) = [tt] /\ ~ dead w)).
+                 (discs (re (pre_handlers c m w w)) = [tt] /\ ~ dead w /\ rv (pre_handlers c m w w) = inl tt)).
     { unfold pre_handlers. rewrite bind_unfold. rewrite Ek.
       set (A := (if st w =? ST_NCE then state_set ST_LOGON_RECV ;;; modw (set_role ROLE_ACCEPTOR) else ret tt) w).
       assert (HA : rv A = inl tt /\ discs (re A) = [] /\ (dead w -> rw A = w)).
       { subst A. destruct (st w =? ST_NCE) eqn:E6; cbn; repeat split; auto. unfold dead. stlia. }
       destruct HA as [HA1 [HA2 HA3]]. rewrite HA1. cbn [rv rw re]. rewrite discs_app, HA2. cbn [app].
-      unfold process_logout. rewrite bind_unfold. cbn [getw rv rw re app]. rewrite bind_unfold. cbn [emit rv rw re app discs].
-      match goal with |- context [disconnect c ?ds None ?ww] =>
-        destruct (disconnect_discs c ds None ww) as [H|[H [Ha _]]] end.
-      - destruct (wasact (rw A)); stlia.
-      - left. exact H.
-      - right. split; [exact H|]. intros Hdw. apply Ha. rewrite (HA3 Hdw). exact Hdw. }
+      destruct (logout_counted_discs c m (rw A)) as [H|[H [Ha Hr]]]; [left; exact H|].
+      right. split; [exact H|]. split; [|exact Hr]. intros Hdw. apply Ha. rewrite (HA3 Hdw). exact Hdw. }
     destruct (pre_handlers c m w w) as [rp wp ep]. cbn [rv rw re] in *.
     destruct rp as [[]|x]; cbn [rv rw re].
-    - rewrite (gap_check_dead c m wp Hd). cbn [rv rw re]. rewrite app_nil_r.
-      destruct Hp as [Hp|[Hp Ha]]; [left; exact Hp|]. right. repeat split; auto. discriminate.
-    - destruct Hp as [Hp|[Hp Ha]]; [left; exact Hp|]. right. repeat split; auto. discriminate. }
+    - rewrite (gap_check_dead c m wp (Hd eq_refl)). cbn [rv rw re]. rewrite app_nil_r.
+      destruct Hp as [Hp|[Hp [Ha _]]]; [left; exact Hp|]. right.
+      split; [exact Hp|]. split; [exact Ha|]. split; [apply Hd; reflexivity|discriminate].
+    - (* an OnDisconnect was reported only if _process_logout ran to its end: then nothing raised *)
+      destruct Hp as [Hp|[Hp [Ha Hr]]]; [left; exact Hp|discriminate]. }
   all: (assert (Hk : mkind m <> KLogout) by congruence;
         pose proof (discs_nil _ (pre_handlers_not_disc_alive c m w Hk w)) as Hp; rewrite Ek in *;
         destruct (pre_handlers c m w w) as [rp wp ep]; cbn [rv rw re] in *;
@@ -362,7 +378,7 @@ Lemma dispatch_discs c m v w :
 Proof.
   unfold dispatch. destruct (mkind m); try (left; reflexivity).
   - left. rewrite deliver_branch_unfold. cbn [re]. destruct (v && seq_is_expected m w); reflexivity.
-  - left. apply discs_nil. apply process_resend_allev; cbn; auto.
+  - left. apply discs_nil. apply resend_served_allev; cbn; auto.
   - left. apply discs_nil. apply process_testrequest_allev; cbn; auto.
   - unfold process_heartbeat. rewrite bind_unfold. cbn [getw rv rw re app].
     destruct (treq w); [|left; reflexivity]. destruct (get T112 (mtags m)); [|left; reflexivity].
